@@ -220,8 +220,14 @@ func instrDominates(x, y ssa.Instruction) bool {
 			if !instrDominates(cs, y) && ssa.Instruction(cs) != y {
 				return false
 			}
+			// when y is reached only if the helper reported success (the caller tests the helper's error result and y
+			// sits behind the success side), only the helper's returns that can report success count
+			okIdx := successOnlyIndex(cs, y)
 			for _, b := range x.Parent().Blocks {
 				if r, ok := b.Instrs[len(b.Instrs)-1].(*ssa.Return); ok && len(b.Preds)+boolInt(b == x.Parent().Blocks[0]) > 0 {
+					if okIdx >= 0 && okIdx < len(r.Results) && returnsKnownError(r, okIdx) {
+						continue
+					}
 					if !instrDominates(x, r) {
 						return false
 					}
@@ -707,4 +713,86 @@ func (a *An) eventsDelivered(rule string) {
 		}
 	}
 	R.Floor(rule, 8)
+}
+
+// successOnlyIndex: the index of the error result of call cs that the caller tests for nil such that y lies behind the
+// success side of the test (-1: no such test).
+func successOnlyIndex(cs ssa.CallInstruction, y ssa.Instruction) int {
+	v := cs.Value()
+	if v == nil || v.Referrers() == nil {
+		return -1
+	}
+	type cand struct {
+		val ssa.Value
+		idx int
+	}
+	var cands []cand
+	if v.Type().String() == "error" {
+		cands = append(cands, cand{v, 0})
+	}
+	for _, ref := range *v.Referrers() {
+		if ex, ok := ref.(*ssa.Extract); ok && ex.Type().String() == "error" {
+			cands = append(cands, cand{ex, ex.Index})
+		}
+	}
+	for _, c := range cands {
+		if c.val.Referrers() == nil {
+			continue
+		}
+		for _, ref := range *c.val.Referrers() {
+			bo, ok := ref.(*ssa.BinOp)
+			if !ok || (bo.Op != token.NEQ && bo.Op != token.EQL) || bo.Referrers() == nil {
+				continue
+			}
+			if !(isNilConst(bo.Y) && bo.X == c.val || isNilConst(bo.X) && bo.Y == c.val) {
+				continue
+			}
+			for _, r2 := range *bo.Referrers() {
+				iff, isIf := r2.(*ssa.If)
+				if !isIf || len(iff.Block().Succs) != 2 {
+					continue
+				}
+				succ := iff.Block().Succs[1] // NEQ: the else side is success
+				if bo.Op == token.EQL {
+					succ = iff.Block().Succs[0]
+				}
+				if len(succ.Preds) == 1 && (succ == y.Block() || succ.Dominates(y.Block())) {
+					return c.idx
+				}
+			}
+		}
+	}
+	return -1
+}
+
+// returnsKnownError: the return hands back, at index k, a value known to be a non-nil error there: it sits behind the
+// non-nil side of a nil test of that very value.
+func returnsKnownError(r *ssa.Return, k int) bool {
+	v := resolveLocal(r.Results[k])
+	if isNilConst(v) || v.Referrers() == nil {
+		return false
+	}
+	for _, ref := range *v.Referrers() {
+		bo, ok := ref.(*ssa.BinOp)
+		if !ok || (bo.Op != token.NEQ && bo.Op != token.EQL) || bo.Referrers() == nil {
+			continue
+		}
+		if !(isNilConst(bo.Y) && bo.X == v || isNilConst(bo.X) && bo.Y == v) {
+			continue
+		}
+		for _, r2 := range *bo.Referrers() {
+			iff, isIf := r2.(*ssa.If)
+			if !isIf || len(iff.Block().Succs) != 2 {
+				continue
+			}
+			succ := iff.Block().Succs[0]
+			if bo.Op == token.EQL {
+				succ = iff.Block().Succs[1]
+			}
+			if len(succ.Preds) == 1 && (succ == r.Block() || succ.Dominates(r.Block())) {
+				return true
+			}
+		}
+	}
+	return false
 }
